@@ -18,7 +18,7 @@ CHECKS = {
 }
 _T = ("trace validation by TLC (AlgoMon.tla) of executions of the real computations under seeded FIFO schedules, "
       "on TLC-generated instances (Gen_Dcop.tla)")
-_TM = ("TLC model checking of Mgm.tla (implementation-shaped model of MgmComputation: every start order, per-channel-FIFO delivery order "
+_TM = ("TLC model checking of Mgm.tla and Mgm2.tla (implementation-shaped models of MgmComputation and Mgm2Computation: every start order, per-channel-FIFO delivery order "
        "and random draw on TLC-drawn instances) with replay of every explored transition on the real computations (full local-state "
        "comparison), the same with Dsa.tla for DsaComputation where DSA is in the property's scope; ") + _T + "; Judge_Hist.tla on the real computations' own reachable graph when they leave the model"
 _N = ("Trusted: TLC's evaluation of AlgoMon.tla/Dcop.tla, vlib/simrt.py (message plumbing only; its FIFO discipline is re-validated "
